@@ -143,3 +143,19 @@ def alpha_normalise(nodes, keep=()):
             if isinstance(x, ast.Name) and x.id in order:
                 x.id = order[x.id]
     return [dump(n) for n in nodes]
+
+
+_FLIPOP = {ast.Lt: ast.Gt, ast.LtE: ast.GtE, ast.Gt: ast.Lt, ast.GtE: ast.LtE, ast.Eq: ast.Eq, ast.NotEq: ast.NotEq}
+
+
+def oriented(cmp, left_pred):
+    """the single comparison `cmp` read with the operand satisfying left_pred on the LEFT (a < b is b > a); None when neither / both sides qualify or it is chained"""
+    if not (isinstance(cmp, ast.Compare) and len(cmp.ops) == 1 and type(cmp.ops[0]) in _FLIPOP):
+        return None
+    l, r = cmp.left, cmp.comparators[0]
+    pl, pr = bool(left_pred(l)), bool(left_pred(r))
+    if pl and not pr:
+        return cmp
+    if pr and not pl:
+        return ast.Compare(left=r, ops=[_FLIPOP[type(cmp.ops[0])]()], comparators=[l])
+    return None
